@@ -1,10 +1,14 @@
 import SimilarVerif.Lemmas.Replace
+import SimilarVerif.Lemmas.Compact
 /-!
 # C10 — Compact and Replace preserve meaning and cost of any valid script
 
 Status: the `Replace` half is **full** (any valid script, any interleaving of delete/insert runs).
-The `Compact` half (Lemmas/Compact.lean) is in progress; until it is imported here the compaction
-clauses are covered by the correspondence (all valid scripts over small sequence pairs) only.
+The `Compact` half is proved as PARTIAL correctness: whenever `cleanup_diff_ops` returns, the result is
+a valid script for the same sequences with the same item counts (for every loop bound, shipped and
+repaired variant).  That it always returns on valid input (no index underflow, termination of the
+`while let` loops) is Lemmas/CompactTotal.lean (in progress); the model reports a non-terminating loop
+as `fuel`, which the correspondence over all valid scripts of a small scope would expose.
 -/
 namespace SimilarVerif.C10
 open SimilarVerif Spec
@@ -21,6 +25,27 @@ theorem replace_preserves (e : Nat → Nat → Bool) (ops : List Op) (o n o' n' 
       Walk e o n out o' n' ∧ nDel out = nDel ops ∧ nIns out = nIns ops ∧ nEq out = nEq ops ∧
       Alternating out ∧ (Exact o n ops → Exact o n out) :=
   SimilarVerif.replace_preserves e ops o n o' n' w hnr hw
+
+/-- **Compact** (the clean-up pass behind `Compact::finish`): whenever it returns, any valid script
+without `replace` calls has become a valid script for the same sequences and end points with exactly
+the same numbers of deleted, inserted and equal items; it touches neither the clock nor the probes. -/
+theorem compact_preserves (E : Env) (repair : Bool) (ops : List Op) (o n o' n' : Nat) (w : World)
+    (ops' : List Op) (w' : World) (hnr : NoReplaceOp ops) (hw : Walk (eqB E) o n ops o' n')
+    (h : cleanupDiffOps E repair ops w = .ok (ops', w')) :
+    Walk (eqB E) o n ops' o' n' ∧ nDel ops' = nDel ops ∧ nIns ops' = nIns ops ∧ nEq ops' = nEq ops ∧
+      NoReplaceOp ops' ∧ w'.clock = w.clock ∧ w'.probes = w.probes :=
+  CompactP.cleanup_preserves E repair ops o n o' n' w ops' w' hnr hw h
+
+/-- **Compact then Replace**: the composition is again valid, cost preserving and alternating -/
+theorem compact_replace_preserves (E : Env) (repair : Bool) (ops : List Op) (o n o' n' : Nat) (w : World)
+    (ops' : List Op) (w' : World) (hnr : NoReplaceOp ops) (hw : Walk (eqB E) o n ops o' n')
+    (h : cleanupDiffOps E repair ops w = .ok (ops', w')) :
+    ∃ out rs, replaceOut ops' w' = .ok ((rs, { trace := out.map Call.op ++ [.finish] }), w') ∧
+      Walk (eqB E) o n out o' n' ∧ nDel out = nDel ops ∧ nIns out = nIns ops ∧ nEq out = nEq ops ∧
+      Alternating out := by
+  obtain ⟨hw', h1, h2, h3, hnr', _⟩ := CompactP.cleanup_preserves E repair ops o n o' n' w ops' w' hnr hw h
+  obtain ⟨out, rs, hr, hwo, g1, g2, g3, ha, _⟩ := SimilarVerif.replace_preserves (eqB E) ops' o n o' n' w' hnr' hw'
+  exact ⟨out, rs, hr, hwo, by omega, by omega, by omega, ha⟩
 
 /-- non-vacuity: split runs, insert before delete -/
 example : (replaceOut [.equal 0 0 1, .equal 1 1 1, .insert 2 2 1, .delete 2 1 3, .insert 3 3 2, .equal 3 5 1] {}).map (·.1.2.trace) =
